@@ -204,7 +204,8 @@ func (a *Range) M__eq__(other Object) (Object, error) {
 		return False, nil
 	}
 
-	if a.Step == 1 {
+	// a range of one item is just that item - the step doesn't matter
+	if a.Length == 1 {
 		return True, nil
 	}
 	if a.Step != b.Step {
